@@ -1,4 +1,6 @@
 mod term;
+mod c19;
+mod c20;
 mod c16;
 mod c11;
 mod c42;
@@ -34,6 +36,7 @@ fn main() {
     if args.len() >= 6 && args[1] == "C32-child" { c32::child(&args[2..]); return; }
     if args.len() >= 5 && args[1] == "CRASH-child" { crash::child(&args[2..]); return; }
     if args.len() >= 3 && args[1] == "C02-trace" { let d = tempfile::tempdir().unwrap(); for (i, t) in crash::protocol_traces(d.path(), &args[2]).iter().enumerate() { println!("{} {:?}", i, t); } return; }
+    if args.len() >= 8 && args[1] == "C20-child" { c20::child(&args[2..]); return; }
     if args.len() < 5 {
         eprintln!("usage: mvharness <property> <seed> <n> <outfile> [extra...]");
         std::process::exit(2);
@@ -73,6 +76,8 @@ fn main() {
         "C42" => c42::run(seed, n, &mut out),
         "C11" => c11::run(seed, n, &mut out),
         "C16" => c16::run(seed, n, _extra.first().map(|s| s.as_str()).unwrap_or("quick"), &mut out),
+        "C20" => c20::run(seed, n, _extra.first().map(|s| s.as_str()).unwrap_or("quick"), &mut out),
+        "C19" => c19::run(seed, n, &mut out),
         _ => { eprintln!("unknown property {}", prop); std::process::exit(2); }
     }
 }
